@@ -64,6 +64,104 @@ def gen_template(rnd, label=True):
     return b"".join(toks)
 
 
+MULTI_COMPS = [b"a", b"b", b"c", b"d"]
+MULTI_TPLS = [b"$1", b"$2", b"x${2}y", b"$1-$3", b"${3}", b"$4$1", b"s", b"$2$2", b"_${5}_"]
+
+
+def glob_match(pat, metric):
+    ps, ms = pat.split(b"."), metric.split(b".")
+    if len(ps) != len(ms):
+        return None
+    caps = []
+    for p_, m_ in zip(ps, ms):
+        if p_ == b"*":
+            caps.append(m_)
+        elif p_ != m_:
+            return None
+    return caps
+
+
+def multi_rule_block(rep, rnd, n):
+    """several overlapping glob rules sharing template texts (the search backtracks over abandoned branches that
+    wrote capture slots; the same template text occurs on rules with different wildcard counts): every answer must
+    expand the WINNING rule's own captures, and the translated regex configuration must agree."""
+    cfgs = []
+    for _ in range(n):
+        k = rnd.randint(2, 4)
+        ln = rnd.randint(2, 4)
+        rules = []
+        for i in range(k):
+            l_i = ln if rnd.random() < 0.7 else rnd.randint(1, 4)
+            pat = [rnd.choice(MULTI_COMPS[:3] + [b"*", b"*"]) for _ in range(l_i)]
+            tpls = [rnd.choice(MULTI_TPLS) for _ in range(2)]
+            if i and rnd.random() < 0.6:
+                tpls = list(rules[0][1])                       # the same texts as the first rule
+            rules.append((b".".join(pat), tpls))
+        metrics = set()
+        for pat, _ in rules:
+            for _ in range(3):
+                metrics.add(b".".join(rnd.choice(MULTI_COMPS) if f == b"*" else f for f in pat.split(b".")))
+        cfgs.append((rules, sorted(metrics)))
+    cases = []
+    for rules, metrics in cfgs:
+        g = (None, [GM.rule(pat, b"n%d" % i, labels=[(b"l0", t[0]), (b"l1", t[1])], help=b"r%d" % i) for i, (pat, t) in enumerate(rules)])
+        r = (None, [GM.rule(b"^" + pat.replace(b".", b"\\.").replace(b"*", b"([^.]*)") + b"$", b"n%d" % i, labels=[(b"l0", t[0]), (b"l1", t[1])],
+                            help=b"r%d" % i, match_type=b"regex") for i, (pat, t) in enumerate(rules)])
+        qs = [GM.query_op("counter", m) for m in metrics]
+        cases.append(GM.case_line("none", 0, [GM.load_op(g)] + qs))
+        cases.append(GM.case_line("lru", 2, [GM.load_op(g)] + qs + qs))
+        cases.append(GM.case_line("none", 0, [GM.load_op(r)] + qs))
+    impl, model = ME.run_cases("C11", cases, tag="multi")
+    rep.count(len(cases))
+    nbad = 0
+    for ci, (rules, metrics) in enumerate(cfgs):
+        ig, ic, ir = impl[3 * ci], impl[3 * ci + 1], impl[3 * ci + 2]
+        payload = dict(rules=[dict(match=p_.decode(), labels=[x.decode() for x in t]) for p_, t in rules], glob=ig, cached=ic, regex=ir)
+        if [ig, ic, ir] != [model[3 * ci], model[3 * ci + 1], model[3 * ci + 2]]:
+            nbad += 1
+        if ig[0] != "L ok" or ir[0] != "L ok":
+            continue                                            # e.g. a rule the loader rejects; the model comparison covers it
+        backtracks = False
+        for qi, m in enumerate(metrics):
+            win = next(((i, glob_match(p_, m)) for i, (p_, _) in enumerate(rules) if glob_match(p_, m) is not None), None)
+            a = ig[1 + qi]
+            if win is None:
+                if a != "Q -":
+                    rep.violation("a metric no rule matches was mapped", dict(payload, metric=m.decode(), answer=a)); break
+                continue
+            i, caps = win
+            if any(glob_match(p_, m) is None and p_.split(b".")[0] in (m.split(b".")[0], b"*") and len(p_.split(b".")) == len(m.split(b"."))
+                   for p_, _ in rules):
+                backtracks = True
+            if a == "Q -":
+                rep.violation("a metric matched by a rule was not mapped", dict(payload, metric=m.decode(), rule=i)); break
+            got = dict(x.split("=") for x in a.split()[3].split("&"))
+            for li, t in enumerate(rules[i][1]):
+                exp = go_expand(t, [None] + caps, wordp)
+                have = vf.unhex(got.get(vf.hexs(b"l%d" % li), "-"))
+                if have != exp:
+                    rep.violation("a label template did not expand to the winning rule's own captures (several overlapping rules)",
+                                  dict(payload, metric=m.decode(), rule=i, template=t.decode(), expected=exp.decode(), got=have.decode("utf-8", "replace")))
+                    break
+            else:
+                if a.split()[2:4] != ir[1 + qi].split()[2:4]:
+                    rep.violation("glob rules and their translated regex rules disagree (several overlapping rules)", dict(payload, metric=m.decode()))
+                    break
+                if ic[1 + qi] != a or ic[1 + len(metrics) + qi] != a:
+                    rep.violation("the cached mapper expands differently from the uncached one", dict(payload, metric=m.decode()))
+                    break
+                continue
+            break
+        if backtracks:
+            rep.nontrivial(("multi", tuple(p_ for p_, _ in rules)))
+        if len(rep.violations) >= 5:
+            break
+    if nbad and len(rep.violations) < 5:
+        rep.violation("implementation differs from the proved model (mapper engine, several overlapping rules)", dict(disagreeing_cases=nbad), no_input=True)
+    rep.extra["multi_rule_configs"] = len(cfgs)
+    return nbad
+
+
 def run(rep, tier, seed, replay):
     rep.cov["trusted_base"] = TRUSTED
     rnd = random.Random(seed)
@@ -138,5 +236,9 @@ def run(rep, tier, seed, replay):
                 rep.violation("implementation differs from the proved model (mapper engine)", dict(payload, model_glob=mg, model_regex=mr), no_input=True)
         if len(rep.violations) >= 5:
             break
+    if not replay and len(rep.violations) < 5:
+        nbad += multi_rule_block(rep, random.Random(seed + 1), 400 if tier == "quick" else 12000)
+        rep.cov["rule"] += ("; plus %d configurations of 2-4 overlapping glob rules that share label template texts (references up to $5), queried with and without cache and as "
+                            "translated regex rules: every answer must expand the winning rule's own captures" % rep.extra.get("multi_rule_configs", 0))
     rep.extra["disagreements_with_model"] = nbad
     rep.sample(dict(items[0] and dict(pattern=items[0][0].decode(), name=items[0][1].decode(), labels=[x.decode() for x in items[0][2]], metric=items[0][3].decode()), impl=impl[0]))
